@@ -1,7 +1,7 @@
 """Per-property configuration of the checks (which Verus units and which Kani harness groups decide it)."""
 
 T1 = 'T1 orx-concurrent-iter 1.30.0 protocol (its sequential part is checked against the real ConIterOfVec / ConIterOfIter by the k_dep_* harnesses; atomicity under real concurrency is assumed) (atomic pulls returning disjoint consecutive index ranges in increasing order; has_more()=Yes(r) => 1<=r<=initial len; after skip_to_end every pull is None): assumed, dependency code not verified'
-T2 = 'T2 orx-concurrent-ordered-bag set_value/set_values/into_inner contract: assumed; executed for real (sequentially) in Kani harnesses'
+T2 = 'T2 orx-concurrent-ordered-bag set_value/set_values/into_inner contract: assumed; executed for real (sequentially) in Kani harnesses and checked directly by k_dep_bag_positions (bounded)'
 T3 = 'T3 orx-priority-queue BinaryHeap push/pop_node/push_then_pop is a min-queue w.r.t. a strict total order on keys: assumed (external_body specs in unit merge); checked against the real BinaryHeap on 3 symbolic entries by k_dep_heap_* (bounded)'
 T4 = 'T4 Vec / SplitVec / FixedVec / PinnedVec::push / SplitVec::append preserve element sequences: vstd specs for Vec, assumed trait contract for PinnedVec; executed for real in Kani harnesses'
 T5 = 'T5 std::thread::scope: every spawned closure runs exactly once, join returns its value, the scope returns after all workers finished (rewrites RW1-RW3 replace scope/spawn/join by ghost-logged stand-ins)'
@@ -24,7 +24,7 @@ PROPS = {
         level='model_checking', verus_units=['merge', 'core', 'utils', 'tasks'],
         kani=True,
         kani_select=dict(quick=r'^k_order_|^k_src_|^k_dep_heap|^k_task_map_fil_col_n|^k_glue_map_fil_col_n2c1|^k_api_par2_(empty|fil|fmap|map_fil)_collect_vec',
-                         thorough=r'^k_order_|^k_src_|^k_dep_heap|^k_task_\w+_col_n|^k_taskkeys_|^k_glue_\w+_col_n|^k_api_par2_\w+_collect(_vec)?_n'),
+                         thorough=r'^k_order_|^k_src_|^k_dep_heap|^k_dep_bag|^k_task_\w+_col_n|^k_taskkeys_|^k_glue_\w+_col_n|^k_api_par2_\w+_collect(_vec)?_n'),
         trusted_base=[T1, T2, T3, T4, T5, ASPEC, A64, ARITH, RSCHED, STUBS, MODEL],
         assumptions=[TASK_BOUND],
         explanation='Verus (unbounded, real text): heap_sort_into_vec/_pinned_vec append exactly the key-sorted enumeration of all (key,value) slots after the untouched prefix (every slot read once), for any number and length of worker vectors; Runner::run_map returns one result per worker in spawn order for every has_more() history. Verus (unbounded, real text, RW15/RW16): filtermap_fil_col::task and flatmap_fil_col::task return keys that are strictly increasing and are positions pulled by this worker (T1 assumed at the two pull sites), every value is a filter_map output that has a value and passes the filter; Fallible for Option never panics under has_value(). Kani (bounded): every collect kernel task returns exactly the survivors of the blocks delivered to it keyed by source position in strictly increasing key order (= the merge precondition, asserted by the merge contract stub); kernel glue and public API chains equal the std::iter chain. ' + MC_TEXT,
@@ -68,7 +68,7 @@ PROPS = {
     'C06': dict(
         level='model_checking', verus_units=['merge', 'tasks'],
         kani=True,
-        kani_select=dict(quick=r'^k_glue_map_fil_col_n2c1|^k_api_(par2|seq|par2u|sequ)_(map|map_fil)_into_vec',
+        kani_select=dict(quick=r'^k_dep_bag|^k_dep_heap|^k_glue_map_fil_col_n2c1|^k_api_(par2|seq|par2u|sequ)_(map|map_fil)_into_vec',
                          thorough=r'^k_glue_\w+_col_n|^k_api_\w+_into_'),
         trusted_base=[T1, T2, T3, T4, T5, ASPEC, A64, RSCHED, STUBS, MODEL],
         assumptions=[TASK_BOUND, 'targets hold one pre-existing symbolic element'],
@@ -128,7 +128,7 @@ PROPS = {
     'C13': dict(
         level='model_checking', verus_units=['merge', 'core'],
         kani=True,
-        kani_select=dict(quick=r'^k_drop_|^k_dep_heap', thorough=r'^k_drop_|^k_dep_heap'),
+        kani_select=dict(quick=r'^k_drop_|^k_dep_heap|^k_dep_bag', thorough=r'^k_drop_|^k_dep_heap|^k_dep_bag'),
         trusted_base=[T1, T2, T3, T4, T5, ASPEC, A64],
         assumptions=['the final `set_len(0)` loop of the merge is accepted by Verus but its effect (lengths 0) is not proved (iter_mut prophecy specs); drops inside the dependencies under real concurrency are not covered', TASK_BOUND + ' (drop harnesses: 3 owned items with drop counters, real ConIterOfVec, one worker)'],
         explanation='Verus (unbounded, real text): the merge reads every (vector, index) slot exactly once (ghost ledger `reads` is a bijection onto all slots) and pushes exactly that value to the output, so each value is owned exactly once by the output; Runner::run_map hands back every worker vector exactly once. Kani (bounded): a drop-counting item type through filter+collect (merge path), map+collect (ordered bag path) and find with early exit over the real ConIterOfVec: after the result is dropped every item has been dropped exactly once, none twice before.',
